@@ -147,7 +147,7 @@ CHECKS["C09"] = {
         {"pkg": _SS, "run": "^TestVerif_C09_Parallel", Q: {"timeout": 600}, T: {"timeout": 3400, "shards": 4}},
         {"pkg": _SS, "run": "^TestVerif_C09_Controlled", "inst": ["pkg/secretstore/secret_store_messages.go"], Q: {"timeout": 600}, T: {"timeout": 3400, "shards": 8}},
     ],
-    "mandatory_labels": {"all": ["parallel/overlapping-sends", "parallel/several-groups", "controlled/dfs-schedules", "controlled/contended-lock"]},
+    "mandatory_labels": {"all": ["parallel/overlapping-sends", "parallel/several-groups", "controlled/dfs-schedules", "controlled/contended-lock", "parallel/read-back", "controlled/read-back"]},
 }
 
 CHECKS["C10"] = {
@@ -260,7 +260,7 @@ CHECKS["C13"] = {
     "units": [
         {"pkg": ".", "run": "^TestVerif_C13_", Q: {"timeout": 900}, T: {"timeout": 3400, "shards": 16}},
     ],
-    "mandatory_labels": {"all": ["listing/both-bounds-n>=3", "logs/replica-batch>=2", "two-writers/concurrent-pair"]},
+    "mandatory_labels": {"all": ["listing/both-bounds-n>=3", "logs/replica-batch>=2", "two-writers/concurrent-pair", "rpc-listing/both-bounds-n>=3"]},
 }
 
 CHECKS["C03"] = {
@@ -365,5 +365,5 @@ CHECKS["C08"] = {
     "units": [
         {"pkg": ".", "run": "^TestVerif_C08_", "inst": ["store_message.go", "internal/queue/simple.go", "internal/queue/priority.go"], Q: {"timeout": 900}, T: {"timeout": 3400, "shards": 12}},
     ],
-    "mandatory_labels": {"all": ["pipeline/dfs-schedules", "pipeline/registration-between-lookup-and-park", "pipeline/undecryptable-below-decryptable", "pipeline/with-cancel"]},
+    "mandatory_labels": {"all": ["pipeline/dfs-schedules", "pipeline/registration-between-lookup-and-park", "pipeline/undecryptable-below-decryptable", "pipeline/with-cancel", "pipeline/arrival-beyond-key-window"]},
 }
